@@ -378,10 +378,9 @@ func (dn *dirNode) size() int64 {
 // delete removes all information from the node, decrements the reference counter of the fileNode.
 // If there is no more references, the data is deleted.
 func (fn *fileNode) delete() {
+	// The data of a file without link is still used by its open handles,
+	// it is released with the node itself.
 	fn.nlink--
-	if fn.nlink == 0 {
-		fn.data = nil
-	}
 }
 
 // fillStatFrom returns a MemInfo (implementation of fs.FileInfo) from a fileNode fn named name.
